@@ -41,15 +41,17 @@ type Violation struct {
 	Detail  string          `json:"detail"`
 	Case    json.RawMessage `json:"case"`
 	Shard   int             `json:"shard"`
+	From    int64           `json:"from"`
 	NShards int             `json:"nshards"`
 	Idx     int64           `json:"idx"`
 }
 
 type Meta struct {
-	ID          string   `json:"id"`
-	Level       string   `json:"level"`
-	Rule        string   `json:"rule"`
-	Assumptions []string `json:"assumptions"`
+	ID              string   `json:"id"`
+	Level           string   `json:"level"`
+	Rule            string   `json:"rule"`
+	Assumptions     []string `json:"assumptions"`
+	HangIsViolation bool     `json:"hang_is_violation"`
 }
 
 type WorkerOut struct {
@@ -68,6 +70,8 @@ type WorkerOut struct {
 	CapHit     bool             `json:"cap_hit"`
 	Done       bool             `json:"done"`
 	HangAt     int64            `json:"hang_at"`
+	HangFrame  string           `json:"hang_frame"`
+	HangStacks string           `json:"hang_stacks"`
 	LastIdx    int64            `json:"last_idx"`
 }
 
@@ -226,7 +230,7 @@ func buildACV(cache, work string) (string, error) {
 	return bin, nil
 }
 
-var needsACV = map[string]bool{"C18": true, "C04": true}
+var needsACV = map[string]bool{"C18": true, "C04": true, "C12": true}
 
 func realMain(id, tier, replay string, workers int, seed int64, cache, work string) int {
 	t0 := time.Now()
@@ -268,6 +272,11 @@ func realMain(id, tier, replay string, workers int, seed int64, cache, work stri
 			fmt.Printf("VIOLATION property=%s replay=%s\n", id, replay)
 			return 1
 		}
+		if ee, ok := err.(*exec.ExitError); ok && ee.ExitCode() == 3 && strings.Contains(out, `"hang_frame":"`) && !strings.Contains(out, `"hang_frame":""`) {
+			// the replayed call blocked inside the library
+			fmt.Printf("VIOLATION property=%s replay=%s\n", id, replay)
+			return 1
+		}
 		return 2
 	}
 
@@ -284,6 +293,8 @@ func realMain(id, tier, replay string, workers int, seed int64, cache, work stri
 			defer wg.Done()
 			from := int64(0)
 			myCrashes := 0
+			myHangs := 0
+			myExpiries := 0
 			for attempt := 0; attempt < 50; attempt++ {
 				of := filepath.Join(work, fmt.Sprintf("out-%d-%d.json", s, attempt))
 				cmd := exec.Command(bin, "run", id, tier, strconv.Itoa(s), strconv.Itoa(workers), strconv.FormatInt(from, 10), of)
@@ -310,6 +321,29 @@ func realMain(id, tier, replay string, workers int, seed int64, cache, work stri
 				}
 				if code == 3 && rerr == nil && wo.HangAt >= 0 {
 					hangs = append(hangs, fmt.Sprintf("shard %d case %d", s, wo.HangAt))
+					myExpiries++
+					if myExpiries >= 6 {
+						hangs = append(hangs, fmt.Sprintf("shard %d stopped after 6 watchdog expiries (last at case %d)", s, wo.HangAt))
+						mu.Unlock()
+						return
+					}
+					if wo.Meta.HangIsViolation && wo.HangFrame != "" {
+						// the call never returned: a goroutine parked for over a minute inside the library and nothing running
+						var pr struct {
+							Case json.RawMessage `json:"case"`
+						}
+						if pb, err := os.ReadFile(of + ".progress"); err == nil {
+							json.Unmarshal(pb, &pr)
+						}
+						sig := fmt.Sprintf("%s call does not return: blocked in %s [hang]", id, wo.HangFrame)
+						crashes = append(crashes, Violation{Sig: sig, Detail: fmt.Sprintf("the case exceeded the %d s watchdog with no goroutine running and a goroutine parked for over a minute in %s\n%s", 90, wo.HangFrame, tail(wo.HangStacks, 3000)), Case: pr.Case, Shard: s, NShards: workers, Idx: wo.HangAt, From: from})
+						myHangs++
+						if myHangs >= 2 {
+							hangs = append(hangs, fmt.Sprintf("shard %d stopped after 2 blocked calls (last at case %d)", s, wo.HangAt))
+							mu.Unlock()
+							return
+						}
+					}
 					mu.Unlock()
 					from = wo.HangAt + 1
 					continue
@@ -337,7 +371,7 @@ func realMain(id, tier, replay string, workers int, seed int64, cache, work stri
 							first = first[:j]
 						}
 						sig := fmt.Sprintf("%s process crash inside the library at %s [crash]", id, frame)
-						crashes = append(crashes, Violation{Sig: sig, Detail: "the worker process died while running this case: " + first + "\n" + tail(eb.String(), 2500), Case: pr.Case, Shard: s, NShards: workers, Idx: pr.Idx})
+						crashes = append(crashes, Violation{Sig: sig, Detail: "the worker process died while running this case: " + first + "\n" + tail(eb.String(), 2500), Case: pr.Case, Shard: s, NShards: workers, Idx: pr.Idx, From: from})
 						myCrashes++
 						if myCrashes >= 3 {
 							hangs = append(hangs, fmt.Sprintf("shard %d stopped after 3 process crashes (last at case %d)", s, pr.Idx))
@@ -507,8 +541,8 @@ func realMain(id, tier, replay string, workers int, seed int64, cache, work stri
 					defer rwg.Done()
 					sem <- struct{}{}
 					defer func() { <-sem }()
-					_, err := runWorker(bin, wenv, "replay", id, tier, pd.rp)
-					if ee, ok := err.(*exec.ExitError); ok && ee.ExitCode() == 1 {
+					out, err := runWorker(bin, wenv, "replay", id, tier, pd.rp)
+					if ee, ok := err.(*exec.ExitError); ok && (ee.ExitCode() == 1 || (ee.ExitCode() == 3 && strings.Contains(pd.sig, "[hang]") && strings.Contains(out, `"hang_frame":"`+hangFrameOf(pd.sig)+`"`))) {
 						mu.Lock()
 						pd.repro++
 						mu.Unlock()
@@ -525,24 +559,32 @@ func realMain(id, tier, replay string, workers int, seed int64, cache, work stri
 	for _, pd := range pend {
 		if pd.repro >= 0 && pd.repro < 5 && !strings.Contains(pd.sig, "[nondet-ok]") && pd.v.NShards > 0 {
 			again := 0
+			var hwg sync.WaitGroup
 			for k := 0; k < 2; k++ {
-				of := filepath.Join(work, fmt.Sprintf("hist-%d-%d.json", pd.v.Shard, k))
-				cmd := exec.Command(bin, "run", id, tier, strconv.Itoa(pd.v.Shard), strconv.Itoa(pd.v.NShards), "0", of)
-				cmd.Env = append(wenv, fmt.Sprintf("VERIF_UPTO=%d", pd.v.Idx))
-				cmd.Run()
-				var wo WorkerOut
-				if b, err := os.ReadFile(of); err == nil {
-					json.Unmarshal(b, &wo)
-				}
-				if wo.VioCounts[pd.sig] > 0 {
-					again++
-				}
+				hwg.Add(1)
+				go func(k int) {
+					defer hwg.Done()
+					of := filepath.Join(work, fmt.Sprintf("hist-%d-%d.json", pd.v.Shard, k))
+					cmd := exec.Command(bin, "run", id, tier, strconv.Itoa(pd.v.Shard), strconv.Itoa(pd.v.NShards), strconv.FormatInt(pd.v.From, 10), of)
+					cmd.Env = append(wenv, fmt.Sprintf("VERIF_UPTO=%d", pd.v.Idx))
+					cmd.Run()
+					var wo WorkerOut
+					if b, err := os.ReadFile(of); err == nil {
+						json.Unmarshal(b, &wo)
+					}
+					if wo.VioCounts[pd.sig] > 0 || (strings.Contains(pd.sig, "[hang]") && wo.HangAt == pd.v.Idx && wo.HangFrame == hangFrameOf(pd.sig)) {
+						mu.Lock()
+						again++
+						mu.Unlock()
+					}
+				}(k)
 			}
+			hwg.Wait()
 			if again == 2 {
 				pd.repro = 5
-				pd.v.Detail = fmt.Sprintf("[does not reproduce from the single case: depends on earlier cases of the same process; reproduced 2/2 by re-running shard %d/%d up to case %d]\n", pd.v.Shard, pd.v.NShards, pd.v.Idx) + pd.v.Detail
+				pd.v.Detail = fmt.Sprintf("[does not reproduce from the single case: depends on earlier cases of the same process; reproduced 2/2 by re-running shard %d/%d from case %d up to case %d]\n", pd.v.Shard, pd.v.NShards, pd.v.From, pd.v.Idx) + pd.v.Detail
 				rb, _ := json.MarshalIndent(map[string]any{"property": id, "sig": pd.sig, "detail": pd.v.Detail, "case": pd.v.Case, "tier": tier,
-					"history": map[string]any{"shard": pd.v.Shard, "nshards": pd.v.NShards, "upto_case_index": pd.v.Idx, "how": fmt.Sprintf("VERIF_UPTO=%d vworker run %s %s %d %d 0 out.json", pd.v.Idx, id, tier, pd.v.Shard, pd.v.NShards)}}, "", " ")
+					"history": map[string]any{"shard": pd.v.Shard, "nshards": pd.v.NShards, "upto_case_index": pd.v.Idx, "how": fmt.Sprintf("VERIF_UPTO=%d vworker run %s %s %d %d %d out.json", pd.v.Idx, id, tier, pd.v.Shard, pd.v.NShards, pd.v.From)}}, "", " ")
 				os.WriteFile(pd.rp, rb, 0o644)
 			}
 		}
@@ -626,6 +668,14 @@ func realMain(id, tier, replay string, workers int, seed int64, cache, work stri
 	fmt.Printf("%s tier=%s cases=%d evaluations=%d nontrivial=%d outcomes=%d exhaustive=%v violations=%d known=%d wall=%.1fs\n",
 		id, tier, cases, evals, nontriv, len(outcomes), !capHit, newViolations, len(knownLines), time.Since(t0).Seconds())
 	return exit
+}
+
+// hangFrameOf extracts the library function named by a "[hang]" signature.
+func hangFrameOf(sig string) string {
+	if i := strings.Index(sig, "blocked in "); i >= 0 {
+		return strings.TrimSuffix(sig[i+len("blocked in "):], " [hang]")
+	}
+	return ""
 }
 
 func topOutcomes(m map[string]int64, n int) map[string]int64 {
